@@ -581,3 +581,26 @@ pub fn qeval(db: &Db, env: &[&Vec<Val>], q: &Qry) -> Res<Vec<Vec<Val>>> {
     }
 }
 pub fn spec_chain(db: &Db, c: &Chain) -> Res<Vec<Vec<Val>>> { qeval(db, &[], &c.parse_std()) }
+
+fn own_scalars<'a>(e: &'a Sx, out: &mut Vec<&'a Qry>) {
+    match e {
+        Sx::Col { .. } | Sx::Lit(_) | Sx::Exists(..) => {}
+        Sx::Arith(_, a, b) | Sx::Cmp(_, a, b) | Sx::And(a, b) | Sx::Or(a, b) => { own_scalars(a, out); own_scalars(b, out); }
+        Sx::Not(a) | Sx::IsNull(_, a) => own_scalars(a, out),
+        Sx::In(_, a, _) => own_scalars(a, out),
+        Sx::Scalar(q) => out.push(q),
+    }
+}
+/// Model/SubqSpec.v eager_error: an uncorrelated scalar subquery of the WHERE clause has, on its
+/// own, more than one row (an engine may raise the cardinality error before the first row)
+pub fn eager_error(db: &Db, c: &Chain) -> bool {
+    if !c.rest.is_empty() { return false; }
+    match &c.first {
+        Qry::Sel { w: Some(p), .. } => {
+            let mut qs = vec![];
+            own_scalars(p, &mut qs);
+            qs.iter().any(|q| matches!(qeval(db, &[], q), Res::Ok(t) if t.len() >= 2))
+        }
+        _ => false,
+    }
+}
